@@ -147,6 +147,8 @@ enum Y {
     Seq(Vec<Y>),
     FlowSeq(Vec<String>),
     FlowMap(Vec<(String, String)>),
+    /// block scalar: header (`|`, `>`, `|-`, `>+` …) and content lines
+    Block(String, Vec<String>),
 }
 
 const YKEYS: [&str; 6] = ["a", "b", "c", "d", "e", "key"];
@@ -169,22 +171,132 @@ fn y_scalar(r: &mut Rng) -> String {
     }
 }
 
+/// Every YAML 1.2 double-quoted escape, and the code points that matter to a JSON writer.
+/// (`\\L`, `\\P`, `\\u2028`, `\\u2029` are generated in their own class `lsps`: recorded finding C27-yq-lsps)
+const DQ_SIMPLE: [&str; 15] = [
+    "\\0", "\\a", "\\b", "\\t", "\\n", "\\v", "\\f", "\\r", "\\e", "\\ ", "\\\"", "\\/", "\\\\", "\\N", "\\_",
+];
+const DQ_X: [&str; 24] = [
+    "00", "01", "07", "08", "09", "0a", "0c", "0d", "1b", "1f", "20", "22", "27", "2f", "41", "5c", "5C", "7e", "7f", "80",
+    "85", "a0", "e9", "ff",
+];
+/// (`\\ud800`…`\\udfff` — not Unicode scalar values, i.e. ill-formed YAML — are generated in the class
+/// `surrogate`: recorded finding C27-yq-surrogate-escape)
+const DQ_U: [&str; 16] = [
+    "0000", "0022", "005c", "005C", "002f", "0041", "001f", "007f", "0085", "00e9", "2027", "202a", "d7ff", "e000", "fffd",
+    "ffff",
+];
+const DQ_BIGU: [&str; 7] = ["00000041", "00000022", "0000005c", "0000000a", "0001f600", "00010000", "0010ffff"];
+const DQ_LIT: [&str; 14] = ["a", "Z", "0", " ", "'", "/", ":", "#", "-", "{", ",", "\u{e9}", "\u{1f600}", "x y"];
+
+/// body of a double-quoted scalar drawn from the escape alphabet
+fn y_dq_body(r: &mut Rng) -> String {
+    let n = *r.pick(&[0usize, 1, 1, 2, 3, 4, 6, 10]);
+    let mut s = String::new();
+    for _ in 0..n {
+        match r.below(12) {
+            0..=2 => s.push_str(*r.pick(&DQ_SIMPLE)),
+            3..=5 => {
+                s.push_str("\\x");
+                if r.chance(3, 4) {
+                    s.push_str(*r.pick(&DQ_X));
+                } else {
+                    s.push_str(&format!("{:02x}", r.below(256)));
+                }
+            }
+            6 | 7 => {
+                s.push_str("\\u");
+                if r.chance(7, 8) {
+                    s.push_str(*r.pick(&DQ_U));
+                } else {
+                    // any BMP value outside the surrogate range
+                    let v = r.below(0xd800);
+                    let v = if v == 0x2028 || v == 0x2029 { 0x2027 } else { v };
+                    s.push_str(&format!("{v:04x}"));
+                }
+            }
+            8 => {
+                s.push_str("\\U");
+                s.push_str(*r.pick(&DQ_BIGU));
+            }
+            _ => s.push_str(*r.pick(&DQ_LIT)),
+        }
+    }
+    s
+}
+
+/// scalars whose *JSON* rendering must not depend on the route: every double-quoted escape,
+/// single-quoted with `''` and literal backslashes, plain scalars with quote / backslash inside
+fn y_scalar_rich(r: &mut Rng) -> String {
+    match r.below(10) {
+        0..=5 => format!("\"{}\"", y_dq_body(r)),
+        6 | 7 => format!(
+            "'{}'",
+            r.pick(&["it''s", "''", "a ''b'' c", "back\\slash \\x22 \\n", "say \"hi\"", "/", "", " lead", "#no comment", "a: b"])
+        ),
+        8 => r.pick(&["a\\b", "a\"b", "it's", "C:\\Temp", "x/y", "a\\x22b", "q\"", "back\\"]).to_string(),
+        _ => y_scalar(r),
+    }
+}
+
+fn y_block(r: &mut Rng) -> Y {
+    let header = *r.pick(&["|", ">", "|-", ">-", "|+", ">+"]);
+    let n = r.range(1, 3);
+    let lines = (0..n)
+        .map(|_| r.pick(&["say \"hi\"", "C:\\Temp\\x", "plain text", "tab\\there \\x22", "a/b 'c'", "# not a comment", "k: v"]).to_string())
+        .collect();
+    Y::Block(header.to_string(), lines)
+}
+
+thread_local! {
+    /// rich mode: scalars / keys from the escape alphabet, block scalars (JSON-output requests)
+    static RICH: std::cell::Cell<bool> = const { std::cell::Cell::new(false) };
+}
+
+fn scalar(r: &mut Rng) -> String {
+    if RICH.with(|c| c.get()) && r.chance(2, 3) {
+        y_scalar_rich(r)
+    } else {
+        y_scalar(r)
+    }
+}
+
+/// a mapping key: plain, or (rich mode) double-quoted from the escape alphabet, kept unique by `i`
+fn key(r: &mut Rng, plain: &str, i: usize) -> String {
+    if RICH.with(|c| c.get()) && r.chance(1, 3) {
+        format!("\"k{i}{}\"", y_dq_body(r))
+    } else {
+        plain.to_string()
+    }
+}
+
+fn flow_ok(s: &str) -> bool {
+    s.starts_with('"') || s.starts_with('\'') || !(s.contains(',') || s.contains(": ") || s.contains(['[', ']', '{', '}', '#']))
+}
+
 fn y_gen(r: &mut Rng, depth: u32) -> Y {
+    let rich = RICH.with(|c| c.get());
     let pick = if depth == 0 { r.below(4) } else { r.below(10) };
     match pick {
-        0..=2 => Y::Scalar(y_scalar(r)),
+        0..=2 => {
+            if rich && r.chance(1, 8) {
+                y_block(r)
+            } else {
+                Y::Scalar(scalar(r))
+            }
+        }
         3 => {
             if r.chance(1, 2) {
-                Y::FlowSeq((0..r.below(4)).map(|_| y_scalar(r)).filter(|s| !s.contains(',') && !s.contains(": ")).collect())
+                Y::FlowSeq((0..r.below(4)).map(|_| scalar(r)).filter(|s| flow_ok(s)).collect())
             } else {
                 let n = r.below(3) as usize;
                 let mut ks: Vec<&str> = YKEYS.to_vec();
                 let mut fs = Vec::new();
-                for _ in 0..n {
+                for i in 0..n {
                     let k = ks.remove(r.usize_below(ks.len()));
-                    let v = y_scalar(r);
-                    if !v.contains(',') && !v.contains(": ") {
-                        fs.push((k.to_string(), v));
+                    let v = scalar(r);
+                    if flow_ok(&v) {
+                        fs.push((key(r, k, i), v));
                     }
                 }
                 Y::FlowMap(fs)
@@ -194,9 +306,9 @@ fn y_gen(r: &mut Rng, depth: u32) -> Y {
             let n = r.range(1, 4) as usize;
             let mut ks: Vec<&str> = YKEYS.to_vec();
             let mut fs = Vec::new();
-            for _ in 0..n {
+            for i in 0..n {
                 let k = ks.remove(r.usize_below(ks.len()));
-                fs.push((k.to_string(), y_gen(r, depth - 1)));
+                fs.push((key(r, k, i), y_gen(r, depth - 1)));
             }
             Y::Map(fs)
         }
@@ -213,11 +325,26 @@ fn flow_text(v: &Y) -> Option<String> {
     }
 }
 
+fn block_text(x: &Y, ind: usize) -> Option<String> {
+    match x {
+        Y::Block(h, lines) => {
+            let pad = " ".repeat(ind);
+            Some(format!("{h}\n{}", lines.iter().map(|l| format!("{pad}{l}\n")).collect::<String>()))
+        }
+        _ => None,
+    }
+}
+
 fn y_write(v: &Y, ind: usize, out: &mut String) {
     let pad = " ".repeat(ind);
     match v {
+        Y::Block(..) => out.push_str(&format!("{pad}- {}", block_text(v, ind + 2).unwrap())),
         Y::Map(fs) => {
             for (k, x) in fs {
+                if let Some(b) = block_text(x, ind + 2) {
+                    out.push_str(&format!("{pad}{k}: {b}"));
+                    continue;
+                }
                 match flow_text(x) {
                     Some(t) => out.push_str(&format!("{pad}{k}: {t}\n")),
                     None => {
@@ -229,6 +356,10 @@ fn y_write(v: &Y, ind: usize, out: &mut String) {
         }
         Y::Seq(xs) => {
             for x in xs {
+                if let Some(b) = block_text(x, ind + 2) {
+                    out.push_str(&format!("{pad}- {b}"));
+                    continue;
+                }
                 match flow_text(x) {
                     Some(t) => out.push_str(&format!("{pad}- {t}\n")),
                     None => {
@@ -248,6 +379,8 @@ fn y_write(v: &Y, ind: usize, out: &mut String) {
 fn y_doc(r: &mut Rng) -> (Y, Vec<u8>) {
     let d = *r.pick(&[1u32, 2, 2, 3, 4]);
     let v = if r.chance(1, 12) { y_gen(r, 0) } else if r.chance(1, 2) { Y::Map(match y_gen_map(r, d) { Y::Map(f) => f, _ => vec![] }) } else { y_gen(r, d) };
+    // a block scalar is only generated inside a collection (documents are joined with `---`)
+    let v = if matches!(v, Y::Block(..)) { Y::Seq(vec![v]) } else { v };
     let mut s = String::new();
     y_write(&v, 0, &mut s);
     (v, s.into_bytes())
@@ -257,11 +390,19 @@ fn y_gen_map(r: &mut Rng, depth: u32) -> Y {
     let n = r.range(1, 5) as usize;
     let mut ks: Vec<&str> = YKEYS.to_vec();
     let mut fs = Vec::new();
-    for _ in 0..n {
+    for i in 0..n {
         let k = ks.remove(r.usize_below(ks.len()));
-        fs.push((k.to_string(), y_gen(r, depth.saturating_sub(1))));
+        fs.push((key(r, k, i), y_gen(r, depth.saturating_sub(1))));
     }
     Y::Map(fs)
+}
+
+/// document for JSON-output requests: scalars and keys from the full escape alphabet
+fn y_doc_rich(r: &mut Rng) -> (Y, Vec<u8>) {
+    RICH.with(|c| c.set(true));
+    let d = y_doc(r);
+    RICH.with(|c| c.set(false));
+    d
 }
 
 // ------------------------------------------------------------------ navigation programs
@@ -300,11 +441,15 @@ pub enum Sh {
 
 fn sh_of_y(v: &Y) -> Sh {
     match v {
-        Y::Map(fs) => Sh::Map(fs.iter().map(|(k, x)| (k.clone(), sh_of_y(x))).collect()),
+        Y::Map(fs) => Sh::Map(
+            fs.iter().filter(|(k, _)| k.chars().all(|c| c.is_ascii_lowercase())).map(|(k, x)| (k.clone(), sh_of_y(x))).collect(),
+        ),
         Y::Seq(xs) => Sh::Seq(xs.iter().map(sh_of_y).collect()),
         Y::FlowSeq(xs) => Sh::Seq(xs.iter().map(|_| Sh::Leaf).collect()),
-        Y::FlowMap(fs) => Sh::Map(fs.iter().map(|(k, _)| (k.clone(), Sh::Leaf)).collect()),
-        Y::Scalar(_) => Sh::Leaf,
+        Y::FlowMap(fs) => Sh::Map(
+            fs.iter().filter(|(k, _)| k.chars().all(|c| c.is_ascii_lowercase())).map(|(k, _)| (k.clone(), Sh::Leaf)).collect(),
+        ),
+        Y::Scalar(_) | Y::Block(..) => Sh::Leaf,
     }
 }
 
@@ -439,7 +584,7 @@ fn canon_nums(g: &mut G, r: &mut Rng) {
 
 pub fn gen(tier: Tier, r: &mut Rng, emit: &mut dyn FnMut(String)) {
     // every request costs 2–3 CLI processes: the quick tier stays below ~80 processes
-    let (n_jq, n_yj, n_yy, n_cls) = if tier == Tier::Quick { (9, 6, 14, 1) } else { (500, 400, 900, 40) };
+    let (n_jq, n_yj, n_yy, n_cls) = if tier == Tier::Quick { (9, 10, 12, 1) } else { (500, 600, 900, 40) };
     // ---- jq, core: every layout (incl. `--indent 0`, raw DEL in strings — both repaired findings);
     // no --preserve-input (own class below)
     const JQ_FLAGS: [&str; 16] =
@@ -462,8 +607,13 @@ pub fn gen(tier: Tier, r: &mut Rng, emit: &mut dyn FnMut(String)) {
     const YQ_J: [&str; 7] = ["oj", "oj,I0", "oj,I3", "oj,tab", "oj,S", "oj,I7", "oj,I1"];
     for n in 0..n_yj {
         let flags = if n < 7 { YQ_J[n] } else { *r.pick(&YQ_J) };
-        let yd: Vec<(Y, Vec<u8>)> = (0..r.range(6, 12)).map(|_| y_doc(r)).collect();
-        let prog = if n % 4 == 0 { ".".to_string() } else { prog_for(r, &sh_of_y(&yd[0].0)) };
+        let yd: Vec<(Y, Vec<u8>)> = (0..r.range(6, 12)).map(|_| y_doc_rich(r)).collect();
+        // identity / iteration every other request: the whole document goes through the printers
+        let prog = match n % 4 {
+            0 => ".".to_string(),
+            2 => ".[]".to_string(),
+            _ => prog_for(r, &sh_of_y(&yd[0].0)),
+        };
         let docs: Vec<Vec<u8>> = yd.into_iter().map(|x| x.1).collect();
         emit(req("yq", "core", flags, &prog, &docs));
     }
@@ -491,6 +641,11 @@ pub fn gen(tier: Tier, r: &mut Rng, emit: &mut dyn FnMut(String)) {
         emit(req("yq", "multidoc", "", ".", &[y_doc(r).1, y_doc(r).1]));
         // -r with JSON output on a string result
         emit(req("yq", "rawjson", "oj,r", ".s", &[b"s: \"s t\"\n".to_vec()]));
+        // U+2028 / U+2029 in a double-quoted scalar, JSON output
+        emit(req("yq", "lsps", "oj", ".", &[b"s: \"line\\Lsep \\P \\u2028 \\u2029\"\n".to_vec()]));
+        // a \u escape in the surrogate range (ill-formed input), JSON output
+        let su = format!("s: \"a\\u{}b\"\nt: 1\n", r.pick(&["d800", "dbff", "dc00", "dfff"]));
+        emit(req("yq", "surrogate", "oj,I0", ".", &[su.into_bytes()]));
         // JSON input
         let jd = json_doc(r, false, false);
         emit(req("yq", "jsonin", *r.pick(&["pj", "pj,oj"]), ".", &[jd]));
